@@ -29,6 +29,8 @@ DEFAULT_PROFILE = {
   "meta_raw": 0,
   "cyclic_formula": 0,
   "side_effect_formula": 0,
+  "remove_readd": 2,
+  "stale_undo": 1,
 }
 
 
@@ -100,6 +102,7 @@ class Gen(object):
     self.kinds = {}        # distribution of generated action kinds
     self.past = []         # (stored, undo) raw reprs of earlier successful bundles
     self.hostile_names = False
+    self.old_undos = []    # undo lists of bundles applied at least 2 bundles ago
 
   # ------------------------------------------------------------ values
   def value_for(self, w, col, allow_bad=True):
@@ -638,6 +641,25 @@ class Gen(object):
   def g_side_effect_formula(self, w):
     return None      # replaced by props/c29.py
 
+  def g_remove_readd(self, w):
+    """Remove a row and add a row with the same id again in one bundle (explicitly, or implicitly by
+    removing the last row: the next automatic id is the one just freed)."""
+    t = self._table(w, need_rows=True)
+    if not t:
+      return None
+    rng = self.rng
+    r = t["rows"][-1] if rng.random() < 0.6 else rng.choice(t["rows"])
+    vals = self._row_values(w, t)
+    rid = r if (rng.random() < 0.5 or r != t["rows"][-1]) else None
+    return ([["RemoveRecord", t["tableId"], r], ["AddRecord", t["tableId"], rid, vals]],)
+
+  def g_stale_undo(self, w):
+    """Replay an OLDER bundle's undo list after the document has moved on (a client undoing a stale
+    action): it may name rows / columns that no longer exist, so it may be rejected."""
+    if not self.old_undos:
+      return None
+    return ["ApplyUndoActions", self.rng.choice(self.old_undos)]
+
   def g_cyclic_formula(self, w):
     """Make some formula column refer to another formula column of the same table (may close a cycle)."""
     t = self._table(w)
@@ -673,6 +695,9 @@ class Gen(object):
       ["AddColumn", tid, "nulf%d" % rng.randint(0, 99), {"type": "Any", "isFormula": True, "formula": "1 +\x00 2"}],
       ["AddOrUpdateRecord", tid, {}, {}, {}],
       ["AddOrUpdateRecord", tid, {"nosuchcol": 1}, {}, {}],
+      ["ApplyDocActions", [["AddRecord", tid, (max(rows) if rows else 0) + rng.randint(1, 3), {"nosuchcol": 1}]]],
+      ["ApplyDocActions", [["BulkAddRecord", tid, [(max(rows) if rows else 0) + 5, (max(rows) if rows else 0) + 6],
+                            {"nosuchcol": [1, 2]}]]],
     ]
     if fc and rows:
       opts.append(["UpdateRecord", tid, rows[0], {fc[0]["colId"]: 5}])
